@@ -118,7 +118,7 @@ def gen_queries(g, h):
             t = r.choice(sorted(orc.tables))
             d = orc.tables[t][0]
             nonkey = [i for i, c in enumerate(d.cols) if not c[3]]
-            kind = r.choice(["bag", "bag", "grp", "agg", "ord", "join", "join", "pkord", "pkrange", "pkrangeord", "win"])
+            kind = r.choice(["bag", "bag", "grp", "agg", "ord", "join", "join", "pkord", "pkrange", "pkrangeord", "win", "pkgrp", "pkgrp"])
             cols = [c[0] for c in d.cols]
             if kind == "bag":
                 p = g.gen_pred(d)
@@ -164,6 +164,10 @@ def gen_queries(g, h):
                 # repeat here: compared on the key column's sequence, no LIMIT)
                 sql = "select %s from %s where %s %s %d order by %s" % (
                     ", ".join(cols), t, cols[0], r.choice(["<", "<=", ">=", ">"]), r.choice(sg.INT_DOM), cols[0])
+            elif kind == "pkgrp" and d.cols[0][3]:
+                sql = pkgrp_query(r, t, d)
+                if sql.endswith("#seq"):
+                    sql, kind = sql[:-4], "pkgrpseq"
             elif kind == "win":
                 # a window function over the scan (the memory scan yields an EMPTY chunk for an INSERT whose
                 # rows are all deleted: WindowExecutor panicked on it, repaired in /repo).  Only the window
@@ -317,6 +321,91 @@ def gen_range_hist(g, hid):
     return h
 
 
+def pkgrp_query(r, t, d):
+    """GROUP BY / DISTINCT on the primary-key column (key values are NOT unique: uniqueness is not enforced).
+    Only the disk engine plans these as a sort aggregation directly over the key-ordered scan; equal keys
+    arrive in different scan batches (row-sets, blocks).  `#seq` marks answers that are one sequence."""
+    a = d.cols[0][0]
+    nums = [c[0] for c in d.cols[1:] if c[1] in ("INT", "BIGINT")]
+    x = r.choice(nums) if nums else None
+    forms = ["select %s, count(*) from %s group by %s" % (a, t, a),
+             "select distinct %s from %s" % (a, t),
+             "select %s, count(*) from %s group by %s order by %s limit %d#seq" % (a, t, a, a, r.choice([1, 2, 3, 10])),
+             "select %s, count(*) from %s group by %s order by %s#seq" % (a, t, a, a),
+             "select count(*) from %s p join %s q on p.%s = q.%s" % (t, t, a, a)]
+    if x:
+        forms += ["select %s, count(*), min(%s), max(%s) from %s group by %s" % (a, x, x, t, a),
+                  "select %s, sum(%s), count(%s) from %s group by %s" % (a, x, x, t, a),
+                  "select %s, min(%s) from %s group by %s order by %s#seq" % (a, x, t, a, a)]
+    return r.choice(forms)
+
+
+def gen_dupkey_hist(g, hid):
+    """Keyed tables (column-level PRIMARY KEY) with DUPLICATE key values spread over several INSERTs, row-sets
+    (small row-set sizes split an INSERT) and tiny blocks (64-byte blocks: 12-16 INT rows), so that rows with
+    equal keys reach an operator in different scan batches; GROUP BY pk / DISTINCT pk / joins on pk."""
+    r = g.r
+    d = sg.TableDef("t0", [("a", "INT", True, True), ("b", "INT", False, False)])
+    d1 = sg.TableDef("t1", [("a", "INT", True, True), ("d", "INT", False, False)])
+    two = r.random() < 0.4
+    opts = (r.choice([512, 2048, 4096, 1 << 20]), r.choice([32, 64, 64, 128]), r.choice([0, 1]), r.choice([1, 1, 0]))
+    g.count("dupkey:block=%d" % opts[1])
+    dom = r.choice([4, 8, 20])
+    steps = [{"k": "create", "def": d, "sql": d.sql()}]
+    if two:
+        steps.append({"k": "create", "def": d1, "sql": d1.sql()})
+    queries = []
+
+    def ins(dd, n):
+        # runs of equal keys (a key repeated 1-30 times) and single keys, all from a small domain
+        rows = []
+        while len(rows) < n:
+            k = r.randrange(dom)
+            for _ in range(r.choice([1, 1, 2, 3, 14, 30])):
+                rows.append((k, g.gen_val("INT", False)))
+        rows = rows[:n]
+        return {"k": "insert", "table": dd.name, "rows": rows, "def": dd, "sql": "insert into %s values %s" % (dd.name, ", ".join(
+            "(%s, %s)" % (sg.sql_lit(x, "INT"), sg.sql_lit(y, "INT")) for x, y in rows))}
+
+    def ask():
+        k = len(steps) - 1
+        for _ in range(r.randint(2, 4)):
+            q = pkgrp_query(r, "t0", d)
+            kind = "pkgrp"
+            if q.endswith("#seq"):
+                q, kind = q[:-4], "pkgrpseq"
+            queries.append((k, q, kind, None))
+            g.count("query:dupkey-group-by-key")
+        if two:
+            queries.append((k, r.choice(["select count(*) from t0 p join t1 q on p.a = q.a",
+                                         "select p.a, count(*) from t0 p join t1 q on p.a = q.a group by p.a",
+                                         "select p.a, q.d from t0 p join t1 q on p.a = q.a where p.a >= %d" % r.randrange(dom)]), "pkgrp", None))
+
+    for _ in range(r.choice([2, 3, 4, 5])):
+        steps.append(ins(d, r.choice([5, 13, 25, 40, 120])))
+    if two:
+        for _ in range(r.choice([1, 2, 3])):
+            steps.append(ins(d1, r.choice([4, 13, 30])))
+    ask()
+    for _ in range(r.randint(1, 4)):
+        x = r.random()
+        if x < 0.4:
+            steps.append(ins(d, r.choice([5, 13, 40])))
+        elif x < 0.6:
+            p = g.gen_pred(d, 1, avoid_pk=r.random() < 0.5)
+            ps = sg.pred_sql(p, d)
+            steps.append({"k": "delete", "table": "t0", "pred": p, "def": d,
+                          "sql": "delete from t0" + ("" if ps is None else " where " + ps)})
+        elif x < 0.8:
+            steps.append({"k": "compact"})
+        else:
+            steps.append({"k": "reopen"})
+        ask()
+    h = sg.make_hist(hid, opts, NAMES, steps)
+    h["queries"] = queries
+    return h
+
+
 def gen_compkey_hist(g, hid):
     """A composite key declared by a TABLE constraint `primary key (c1, c2[, c3])` (today: the key columns
     become NOT NULL, nothing else - the model's table is unkeyed with NOT NULL columns), key columns not
@@ -417,7 +506,7 @@ def same_result(kind, x, y):
     if kind.startswith("ordcol"):
         c = int(kind[6:])           # same rows, and the ORDER BY column (selected at position c) as a sequence
         return [v[c] for v in rx] == [v[c] for v in ry]
-    if kind in ("pkrangeseq", "pkjoinseq", "keycolseq"):
+    if kind in ("pkrangeseq", "pkjoinseq", "keycolseq", "pkgrpseq"):
         return rx == ry             # unique keys: the ORDER BY answer is one sequence
     return kind not in ("ord", "pkord", "pkrangeord") or [v[0] for v in rx] == [v[0] for v in ry]
 
@@ -443,6 +532,10 @@ def run(ck):
     for i in range(n):
         if i % 8 == 3:
             h = gen_range_hist(g, i)
+            hists.append(attach_queries(h, h["queries"]))
+            continue
+        if i % 16 == 15:
+            h = gen_dupkey_hist(g, i)
             hists.append(attach_queries(h, h["queries"]))
             continue
         if i % 16 == 7:
@@ -531,7 +624,7 @@ def run(ck):
                 noopt, plan_m, plan_d = (parts + ["", "", ""])[2:5]
                 _, sql, kind, meta = h["queries"][int(qi)]
                 ca, ra = parse_result(a)
-                tagged = kind in ("pkord", "pkrange", "pkrangeord", "pkrangeseq", "pkjoin", "pkjoinseq", "winorder", "keycolseq")
+                tagged = kind in ("pkord", "pkrange", "pkrangeord", "pkrangeseq", "pkjoin", "pkjoinseq", "winorder", "keycolseq", "pkgrp", "pkgrpseq")
                 T["tagged" if tagged else "queries"] += 1
                 okq = same_result(kind, a, b)
                 if ra:
@@ -621,6 +714,11 @@ def run(ck):
                     ck.report("engines:window-ignores-order-by",
                               "query `%s` differs between engines: memory %s, disk %s - the running aggregate follows each engine's scan order, "
                               "the window's ORDER BY is bound but not planned or executed (shared query layer; visible as an engine difference)" % (sql, a[:200], b[:200]), replay=qrp)
+                elif kind in ("pkgrp", "pkgrpseq"):
+                    T["io_bad"] += 1
+                    ck.report("engines:query:group-by-key",
+                              "query `%s` over a keyed table with duplicate key values differs between engines: memory %s, disk %s, disk with the optimizer off %s; "
+                              "table facts %s; plan on disk: %s" % (sql, a[:200], b[:200], noopt[:160], facts, plan_d[:300]), replay=qrp)
                 elif kind == "keycolseq":
                     T["io_bad"] += 1
                     ck.report("engines:query:composite-key-order",
